@@ -482,11 +482,12 @@ class SpooledStringIO(SpooledIOBase):
         if not self._rolled:
             tmp = EncodedFile(TemporaryFile(dir=self._dir),
                               data_encoding='utf-8')
-            pos = self.buffer.tell()
             tmp.write(self.buffer.getvalue())
-            tmp.seek(pos)
             self.buffer.close()
             self._buffer = tmp
+            # go back by codepoint position: the byte offset of the old
+            # stream may be ahead of it (bytes held by the decoder)
+            self.seek(self._tell)
 
     def tell(self):
         """Return the codepoint position"""
